@@ -46,6 +46,13 @@ def run_solver(P, footprint, analytic, halo="given", precision="double", ctx="ge
                   modes=S.modes, meas_pt=S.meas_pt, srf_bg_conc=S.p000, footprint=footprint,
                   analytic=analytic, halo=(S.halo if halo == "given" else None), precision=precision, cache=cache)
 
+    if facts is None:
+        facts = Facts()
+    if levels_kind == "array":
+        facts.refine(S.levels.val, {"+", "0"})  # S-SIG: output levels are grid indices 0 .. nz-1
+    else:
+        facts.refine(S.levels, {"+", "0"})
+
     def make(dec):
         return Interp(P, dec, ctx=ctx, facts=facts, stubs=stubs)
 
